@@ -33,6 +33,11 @@ def gen_install(rnd, svc):
             ws = [rnd.choice(WORDS) for _ in range(rnd.randint(0, 3))]
             if key == 'Alias' and rnd.random() < 0.2:
                 ws.append(rnd.choice([svc, 'd/../' + svc]))
+            if key == 'Alias' and rnd.random() < 0.3:
+                # links that cannot be made (the parent is the service file or another link; the name is a directory made for
+                # another link) among links that can: each is skipped on its own, the others are still created
+                ws.insert(rnd.randint(0, len(ws)), rnd.choice([svc + '/extra.service', 'foo.service/nested.service', 'default.target.wants', 'sub/dir', 'sub',
+                                                              'multi-user.target.requires', 'a.service/b/c.service']))
             lines.append(f'{key}={" ".join(ws)}')
     d = rnd.choice(DEFINST)
     if d is not None:
@@ -81,7 +86,10 @@ def correspond(ctx):
         if got:
             res.corr_nontrivial.add(ops[i])
         # a link whose directory cannot be created (a file is in the way) is skipped by the code with a warning: compare the rest
-        if a != 'ok' or {k: v for k, v in want.items() if k in got or not blocked(out, k)} != got:
+        # a link that cannot be made (a non-directory on its parent path, a directory under its own name) is skipped by the code
+        # with a warning: the plan is carried out in order on the abstract directory (creatable) and compared with what exists
+        made = creatable(svc, list(want))
+        if a != 'ok' or {k: v for k, v in want.items() if k in made} != got:
             if len(res.corr_disagreements) < 20:
                 res.corr_disagreements.append(dict(op=ops[i], op_readable=f'enable {svc!r} {text!r}', impl=f'{a} links={got}', model=f'{want}'))
     shutil.rmtree(base, ignore_errors=True)
@@ -97,6 +105,23 @@ def blocked(out, rel):
         if os.path.lexists(p) and (os.path.islink(p) or not os.path.isdir(p)):
             return True
     return False
+
+
+def creatable(svc, planned):
+    """the links of the plan that exist after it was carried out in order on an empty output directory that holds the service
+    file: a link whose parent path runs through a non-directory (the service file, an earlier link) cannot be made, nor can one
+    whose name is a directory made for an earlier link; every other link is made, whatever happened to the ones before it"""
+    dirs, links = set(), set()
+    for k in planned:
+        parts = k.split('/')
+        prefixes = ['/'.join(parts[:i]) for i in range(1, len(parts))]
+        if any(p in links or p == svc for p in prefixes):
+            continue
+        dirs.update(prefixes)
+        if k in dirs:
+            continue
+        links.add(k)
+    return links
 
 
 def spec_links(svc, text):
@@ -182,7 +207,7 @@ def oracle(ctx):
             fails.append(f'the service file {svc} is missing or not a regular file after the run')
         want = spec_links(svc, inst)
         got = {k: v for k, v in links.items()}
-        want_eff = {k for k in want if k in got or not any((('/'.join(k.split('/')[:i])) in got) or ('/'.join(k.split('/')[:i]) == svc) for i in range(1, len(k.split('/'))))}
+        want_eff = creatable(svc, list(want))
         if set(got) != want_eff:
             fails.append(f'links created {sorted(got)} differ from the links [Install] asks for {sorted(want_eff)}')
         for l, tgt in got.items():
